@@ -58,9 +58,9 @@ PROPS["C13"] = {
     "harnesses": [
         {"pkg": "types", "name": "VerifC13_Names", "quick": {}, "thorough": {},
          "bounds": {"replicas": "every n in [1,128] (fork)", "replica numbers": "symbolic 0<=i<j<n"}},
-        {"pkg": "app", "name": "VerifC13_Scale1", "quick": {"d": 0}, "thorough": {"d": 1}, "replay_repeat": 4, "validate_strict": False,
+        {"pkg": "app", "name": "VerifC13_Scale1", "quick": {"d": 0}, "thorough": {"d": 1}, "native": False,
          "bounds": {"initial replicas": "{1,2,3}", "scale target": "{-1,0,1,2,3,9,10,11}", "requests": 1, "templates": "command and description reference PC_REPLICA_NUM and a global variable"}},
-        {"pkg": "app", "name": "VerifC13_Scale2", "thorough": {"d": 0, "wall": 3000}, "replay_repeat": 4, "validate_strict": False,
+        {"pkg": "app", "name": "VerifC13_Scale2", "thorough": {"d": 0, "wall": 3000}, "native": False,
          "bounds": {"requests": 2}},
     ],
     "stubs": ["math.Log10 evaluated natively on the concrete replica count"],
